@@ -171,7 +171,8 @@ namespace vc
                     .u("al", al)
                     .u("mis", reinterpret_cast<std::uintptr_t>(base) % al)
                     .u("gap", gap)
-                    .b("st", false).b("out", false);
+                    .b("st", false).b("out", false)
+                    .u("m16", reinterpret_cast<std::uintptr_t>(base) % 16);
                 return base;
             }
             std::size_t next_base_mod(std::size_t al) const override
